@@ -372,8 +372,29 @@ func (P *Prog) checkAbsentAtProvider(r *Result, rule string, want func(fn *ssa.F
 				case *ssa.ChangeType:
 					v = x.X
 					continue
+				case *ssa.ChangeInterface:
+					v = x.X
+					continue
 				}
 				break
+			}
+			// a present entry replaced by the result of a module function that can return a nil interface
+			// (a provider constructor that returns nil for an empty map): the present entry reads as absent
+			if c0, isCall := v.(*ssa.Call); isCall {
+				if callee := callOf(c0).static; callee != nil && callee.Blocks != nil && inModule(funcPkgPath(callee)) {
+					if _, isIface := c0.Type().Underlying().(*types.Interface); isIface {
+						nilAt := ""
+						eachInstr(callee, func(_ *ssa.BasicBlock, _ int, in2 ssa.Instruction) {
+							if rt2, ok := in2.(*ssa.Return); ok && len(rt2.Results) >= 1 && isNilConst(rt2.Results[0]) {
+								nilAt = P.ipos(in2)
+							}
+						})
+						if nilAt != "" && !P.guardedNonNil(b, c0) {
+							bad = append(bad, fmt.Sprintf("a present entry is returned as the result of %s, which can be a nil interface (%s): the entry is then reported as absent", fname(callee), nilAt))
+						}
+						return
+					}
+				}
 			}
 			var lk *ssa.Lookup
 			commaOK := false
@@ -384,6 +405,35 @@ func (P *Prog) checkAbsentAtProvider(r *Result, rule string, want func(fn *ssa.F
 				if l2, ok := x.Tuple.(*ssa.Lookup); ok && x.Index == 0 {
 					lk, commaOK = l2, true
 				}
+			case *ssa.Call:
+				// a helper of the provider that returns the entry: a typed nil / zero it can return is boxed
+				// here into a non-nil `any` (a present value) unless this return is guarded by a length test of it
+				if callee := callOf(x).static; callee != nil && callee.Blocks != nil && inModule(funcPkgPath(callee)) {
+					if _, isIface := x.Type().Underlying().(*types.Interface); !isIface {
+						zeroAt := ""
+						eachInstr(callee, func(_ *ssa.BasicBlock, _ int, in2 ssa.Instruction) {
+							if rt2, ok := in2.(*ssa.Return); ok && len(rt2.Results) == 1 {
+								if c2, isC := cv(rt2.Results[0]).(*ssa.Const); isC && c2.Value == nil {
+									zeroAt = P.ipos(in2)
+								}
+							}
+						})
+						if zeroAt != "" {
+							guardedLen := false
+							for _, gd := range guardsOf(b) {
+								if bo, ok := gd.If.Cond.(*ssa.BinOp); ok {
+									if lc, ok := bo.X.(*ssa.Call); ok && callOf(lc).builtin == "len" && lc.Call.Args[0] == v && lenPositive(bo, gd.True) {
+										guardedLen = true
+									}
+								}
+							}
+							if !guardedLen {
+								bad = append(bad, fmt.Sprintf("the %s returned by %s (nil for a missing key, %s) is boxed and returned at %s without a presence test: a missing key is reported as a present typed nil", typeStr(x.Type()), fname(callee), zeroAt, P.ipos(in)))
+							}
+						}
+					}
+				}
+				return
 			}
 			if lk == nil {
 				return
@@ -405,7 +455,7 @@ func (P *Prog) checkAbsentAtProvider(r *Result, rule string, want func(fn *ssa.F
 					}
 				}
 				// len(m[key]) > k
-				if bo, ok := c.(*ssa.BinOp); ok && gd.True && (bo.Op == token.GTR || bo.Op == token.GEQ || bo.Op == token.NEQ) {
+				if bo, ok := c.(*ssa.BinOp); ok {
 					if lc, ok := bo.X.(*ssa.Call); ok && callOf(lc).builtin == "len" {
 						// the length of the same entry: another lookup of it, its comma-ok value, or the returned value itself
 						arg := lc.Call.Args[0]
@@ -419,7 +469,7 @@ func (P *Prog) checkAbsentAtProvider(r *Result, rule string, want func(fn *ssa.F
 							}
 						}
 						if arg == v || (l2 != nil && sameValue(l2.X, lk.X) && sameValue(l2.Index, lk.Index)) {
-							if k, ok := constInt(bo.Y); ok && (bo.Op == token.GTR && k >= 0 || bo.Op == token.GEQ && k >= 1 || bo.Op == token.NEQ && k == 0) {
+							if lenPositive(bo, gd.True) {
 								guarded = true
 							}
 						}
@@ -442,4 +492,41 @@ func (P *Prog) checkAbsentAtProvider(r *Result, rule string, want func(fn *ssa.F
 			r.ok(rule, fname(fn), P.pos(fn.Pos()), fmt.Sprintf("%d return(s); every map-sourced typed value is returned only for a present key", nRet))
 		}
 	}
+}
+
+// lenPositive: the comparison `len(x) <op> k`, taken with the given truth value, implies len(x) > 0
+// (also the cases of a `switch len(x)` that were not taken: `len(x) == 0` false).
+func lenPositive(bo *ssa.BinOp, truth bool) bool {
+	k, ok := constInt(bo.Y)
+	if !ok {
+		return false
+	}
+	op := bo.Op
+	if !truth {
+		switch op {
+		case token.EQL:
+			op = token.NEQ
+		case token.NEQ:
+			op = token.EQL
+		case token.LSS:
+			op = token.GEQ
+		case token.LEQ:
+			op = token.GTR
+		case token.GTR:
+			op = token.LEQ
+		case token.GEQ:
+			op = token.LSS
+		}
+	}
+	switch op {
+	case token.GTR:
+		return k >= 0
+	case token.GEQ:
+		return k >= 1
+	case token.NEQ:
+		return k == 0
+	case token.EQL:
+		return k >= 1
+	}
+	return false
 }
